@@ -411,7 +411,7 @@ DEFAULT_HAVOC = [
     r"^<str as ToString>::to_string$", r"^<.* as From<.*>>::from$", r"^<.* as Into<.*>>::into$",
     r"^Arguments::", r"^core::fmt::", r"^std::fmt::", r"^log::__private_api::", r"^anyhow::",
     r"::with_context$", r"::context$", r"^<.* as Clone>::clone$", r"^<.* as Debug>::fmt$", r"^<.* as Display>::fmt$",
-    r"^alloc::fmt::format$", r"^std::fmt::format$", r"^alloc::fmt::format::format_inner$",
+    r"^alloc::fmt::format$", r"^std::fmt::format$", r"^format$", r"^alloc::fmt::format::format_inner$",
     r"^<.* as traits::FilterTrait<K>>::add$", r"^<.* as FilterTrait<.*>>::add$",
     r"^error::Error::", r"^Error::",
     r"^(bytes::)?(BytesMut|Bytes)::", r"^bytes::", r"^bincode::", r"^<.* as (bytes::)?(BufMut|Buf)>::",
@@ -430,6 +430,21 @@ def canon_name(body):
     return ("<%s as %s>::%s" % (io[0], io[1], rest)) if io[1] else "%s::%s" % (io[0], rest)
 
 
+# Frame assumptions (see symex.exec_call step 3): per obligation "module.func", the crate callees that may stay opaque.
+CURRENT_OB = None
+_FRAME = None
+ALL_EXECUTORS = []
+
+
+def frame_assumptions():
+    global _FRAME
+    if _FRAME is None:
+        import json
+        fp = os.path.join(os.path.dirname(os.path.abspath(__file__)), "frame_assumptions.json")
+        _FRAME = json.load(open(fp)) if os.path.exists(fp) and not os.environ.get("VERIF_RECORD_FRAME") else {}
+    return _FRAME
+
+
 def mk_executor(crate, cap=8, loop_bound=12, inline=None, extra_summaries=None, havoc=None, max_paths=4000):
     inline_rx = [re.compile(x) for x in (inline or [])]
     havoc_rx = [re.compile(x) for x in DEFAULT_HAVOC + (havoc or [])]
@@ -444,6 +459,10 @@ def mk_executor(crate, cap=8, loop_bound=12, inline=None, extra_summaries=None, 
     ex.drop_impls = {k[0]: v[0] for k, v in crate.impl_index.items() if k[1] == "Drop" and k[2] == "drop" and len(v) == 1}
     ex.named_consts = crate.consts
     ex.find_body = crate.resolve_callee
+    ex.opaque_seen = set()
+    fa = frame_assumptions()
+    ex.opaque_expected = set(fa[CURRENT_OB]) if CURRENT_OB in fa else None
+    ALL_EXECUTORS.append(ex)
     return ex
 
 
@@ -478,6 +497,7 @@ def prove(ex, res, st, claim, label):
     if r == z3.unsat:
         return True
     if r == z3.sat:
+        res.smt2[-1] = (label, res.smt2[-1][1], "sat")
         ex.solver.push()
         for c in conds:
             ex.solver.add(c)
